@@ -4,6 +4,7 @@ import (
 	"context"
 	"fmt"
 	"io"
+	"sort"
 	"time"
 
 	blocks "github.com/ipfs/go-block-format"
@@ -227,17 +228,67 @@ func RunC02(t *Trace, st *Stats) *Violation {
 	seen := map[string]bool{}
 	n := int64(len(l.Image))
 	var muts []Mut
-	for off := int64(0); off < n; off++ {
-		muts = append(muts, Mut{Kind: "trunc", Off: off})
-	}
-	for off := int64(0); off < n; off++ {
-		region, _ := l.Region(off)
-		if every || region == "sec-data" || region == "sec-digest" {
-			for b := 0; b < 8; b++ {
-				muts = append(muts, Mut{Kind: "flip", Off: off, Bit: b})
+	big := n > 20000
+	if big {
+		// a large section: cutting at every byte is out of reach, so cut where chunked or buffered
+		// reading could plausibly go wrong: multiples of 4 KiB / 16 KiB counted from the start of the
+		// file and from the start of each section body, +-1, plus every byte near structure
+		st.Probe("c02:big-section-image")
+		cuts := map[int64]bool{}
+		add := func(o int64) {
+			for _, d := range []int64{-1, 0, 1} {
+				if o+d > 0 && o+d < n {
+					cuts[o+d] = true
+				}
 			}
-		} else {
-			muts = append(muts, Mut{Kind: "flip", Off: off, Bit: r.Intn(8)})
+		}
+		for _, sec := range l.Payload.Sections {
+			body := l.DataOffset + sec.Off + int64(sec.LenSize)
+			for o := int64(0); o < 80 && body-int64(sec.LenSize)+o < n; o++ {
+				cuts[body-int64(sec.LenSize)+o] = true
+			}
+			for k := int64(1); k*4096 < int64(sec.CidLen+sec.DataLen); k++ {
+				if k <= 4 || k%4 == 0 {
+					add(body + k*4096)
+					add(body + int64(sec.CidLen) + k*4096)
+				}
+			}
+		}
+		for k := int64(1); k*16384 < n; k++ {
+			add(k * 16384)
+		}
+		for o := int64(0); o < 120 && o < n; o++ {
+			cuts[o] = true
+		}
+		for o := n - 120; o < n; o++ {
+			if o > 0 {
+				cuts[o] = true
+			}
+		}
+		var cl []int64
+		for o := range cuts {
+			cl = append(cl, o)
+		}
+		sort.Slice(cl, func(i, j int) bool { return cl[i] < cl[j] })
+		for _, o := range cl {
+			muts = append(muts, Mut{Kind: "trunc", Off: o})
+		}
+		for k := 0; k < 48; k++ {
+			muts = append(muts, Mut{Kind: "flip", Off: int64(r.Intn(int(n))), Bit: r.Intn(8)})
+		}
+	} else {
+		for off := int64(0); off < n; off++ {
+			muts = append(muts, Mut{Kind: "trunc", Off: off})
+		}
+		for off := int64(0); off < n; off++ {
+			region, _ := l.Region(off)
+			if every || region == "sec-data" || region == "sec-digest" {
+				for b := 0; b < 8; b++ {
+					muts = append(muts, Mut{Kind: "flip", Off: off, Bit: b})
+				}
+			} else {
+				muts = append(muts, Mut{Kind: "flip", Off: off, Bit: r.Intn(8)})
+			}
 		}
 	}
 	dels := []sim.Delivery{{ErrAt: -1}, GenDelivery(r)}
@@ -305,6 +356,14 @@ func GenC02(seed uint64, run int) *Trace {
 		if spec.Blocks[i].Size > 70 && r.Chance(4, 5) {
 			spec.Blocks[i].Size = r.Range(0, 70)
 		}
+	}
+	if r.Chance(1, 10) {
+		// one large section (beyond 64 KiB, the size at which chunked reading becomes plausible)
+		spec.Blocks = append(spec.Blocks[:min(len(spec.Blocks), 2)], BlkSpec{Kind: Pick(r, []string{"raw", "cbor", "v0"}), Seed: 40, Size: Pick(r, []int{65537, 131072 + 5, 70000, 200000})})
+		if len(spec.Roots) == 0 {
+			spec.Roots = []BlkSpec{{Kind: "raw", Seed: 1, Size: 3}}
+		}
+		spec.NullPad = 0
 	}
 	return &Trace{Prop: "C02", Engine: "medium", Seed: seed, Run: run, Medium: &MediumSpec{Image: spec, All: true, Del: sim.Delivery{ErrAt: -1}}, Extra: map[string]any{}}
 }
